@@ -82,6 +82,92 @@ def oracleParse (img : Bytes) (expect : Option (List (Bytes × Bytes))) (impl : 
       | none => "FAIL unreadable output"
     | _ => "FAIL conforming image rejected"
 
+/-! ### `bigbuild`: large maps regenerated from parameters (same functions as in `pack.rs`) -/
+
+def bigAlpha : Array UInt8 := "abcdefghijklmnopqrstuvwxyz0123456789ABCDE".toUTF8.data
+
+def bigName (i : Nat) : Bytes :=
+  let a := fun k => bigAlpha[k]!
+  if i < 41 then [a i]
+  else if i < 41 + 1681 then let j := i - 41; [a (j / 41), a (j % 41)]
+  else let j := i - 1722; [a (j / 1681), a ((j / 41) % 41), a (j % 41)]
+
+def bigBody (i seed : Nat) : Bytes :=
+  let h := (i * 2654435761 + seed * 40503 + 12345) % 2 ^ 32
+  if h % 3 == 0 then [] else [UInt8.ofNat ((h / 256) % 256)]
+
+def bigFile (seed i : Nat) : Bytes × Bytes := (bigName i, bigBody i seed)
+
+def fnvStep (h : UInt64) (b : UInt8) : UInt64 := (h ^^^ b.toUInt64) * 0x100000001b3
+
+def hex64 (h : UInt64) : String :=
+  String.ofList ((List.range 16).map (fun k => hexDigit ((h.toNat >>> (4 * (15 - k))) % 16)))
+
+/-- `(count, fnv64 of names, fnv64 of bodies)` as the harness prints them. -/
+def summaryOf (n : Nat) (file : Nat → Bytes × Bytes) : String := Id.run do
+  let mut hn : UInt64 := 0xcbf29ce484222325
+  let mut hb : UInt64 := 0xcbf29ce484222325
+  for i in [0:n] do
+    let kv := file i
+    for b in kv.1 do hn := fnvStep hn b
+    hn := fnvStep hn 0
+    for b in leBytes 4 kv.2.length do hb := fnvStep hb b
+    for b in kv.2 do hb := fnvStep hb b
+  return s!"{n} {hex64 hn} {hex64 hb}"
+
+def summaryOfList (m : List (Bytes × Bytes)) : String :=
+  let arr := m.toArray
+  summaryOf arr.size (fun i => arr[i]!)
+
+def hexToByteArray (s : String) : Option ByteArray := Id.run do
+  if s == "-" then return some ByteArray.empty
+  let u := s.toUTF8
+  if u.size % 2 != 0 then return none
+  let hv := fun (c : UInt8) => if 48 ≤ c && c ≤ 57 then c - 48 else if 97 ≤ c && c ≤ 102 then c - 87 else 255
+  let mut out := ByteArray.emptyWithCapacity (u.size / 2)
+  for k in [0:u.size / 2] do
+    let x := hv (u.get! (2 * k))
+    let y := hv (u.get! (2 * k + 1))
+    if x == 255 || y == 255 then return none
+    out := out.push (x * 16 + y)
+  return some out
+
+def modelBig (n seed : Nat) : String :=
+  let m := (List.range n).map (bigFile seed)
+  match Fe9Arc.serialize sjisSub m with
+  | .ok img => "ok " ++ hexOfBytes img ++ " " ++
+      (match Fe9Arc.parse sjisSub img with
+       | .ok back => summaryOfList back
+       | .err _ => "err"
+       | .panic => "panic")
+  | .err _ => "err"
+  | .panic => "panic"
+
+/-- Spec oracle for `bigbuild`: the image conforms and is aligned (linear-time evaluation; up to 300
+files also the declarative definition, and both must agree), and the parsed map has the input's
+count, names in order and bodies in order. -/
+def oracleBig (n seed : Nat) (impl : List String) : String :=
+  match impl with
+  | _ :: "ok" :: imgHex :: back =>
+    match hexToByteArray imgHex with
+    | none => "FAIL unreadable image"
+    | some img =>
+      let fast := Spec.Pack.fastCheck enc img n (bigFile seed)
+      let slowDisagrees :=
+        if n ≤ 300 then
+          let m := (List.range n).map (bigFile seed)
+          let l := img.data.toList
+          let slow := decide (Spec.Pack.ConformsPack enc l m) && decide (Spec.Pack.Aligned32 l n)
+          slow != fast.isNone
+        else false
+      if slowDisagrees then "FAIL oracle inconsistency: fastCheck and ConformsPack disagree" else
+      match fast with
+      | some why => "FAIL built image is not an aligned pack image of the input files: " ++ why
+      | none =>
+        if " ".intercalate back == summaryOf n (bigFile seed) then "ok"
+        else "FAIL parse(serialize m) differs from m (count / names in order / bodies in order)"
+  | _ => "FAIL serialize did not return an image"
+
 def family : Family where
   State := Unit
   init := ()
@@ -91,6 +177,15 @@ def family : Family where
       match filesOfFields rest with
       | some m => ((), modelBuild m, oracleBuild m i)
       | none => ((), "bad-case", "FAIL bad-case")
+    | [_, "bigbuild", n, seed, mode] =>
+      match n.toNat?, seed.toNat? with
+      | some n, some seed =>
+        -- `oracle` mode: sizes at the top of the domain, where the list-based model is quadratic;
+        -- the model line echoes the implementation line and only the specification is judged
+        let modelLine := if mode == "model" then modelBig n seed else " ".intercalate (i.drop 1)
+        let verdict := oracleBig n seed i
+        ((), modelLine, if mode != "model" && verdict == "ok" then "ok oracle-only" else verdict)
+      | _, _ => ((), "bad-case", "FAIL bad-case")
     | _ :: "parse" :: imgHex :: rest =>
       match bytesOfHex imgHex with
       | some img =>
